@@ -499,6 +499,118 @@ fn run_cleanup(_rec: &Recorder, _check: &'static str) {
     cleanup_backend_files();
 }
 
+
+// --- generated slim files whose footer introduces local time types that are not in the table --------
+// (in-memory fattening has to create them: the fattened answers must equal the rule's answers)
+
+#[derive(Serialize, Deserialize, Debug, Clone)]
+struct FattenCase {
+    rule_sel: u16,
+    /// how the table's older designations relate to the rule's: bit 0 a longer name ending in the
+    /// DST abbreviation, bit 1 one ending in the standard abbreviation, bit 2 an older type with
+    /// the rule's DST offset and abbreviation but the other DST flag, bit 3 same for standard
+    shape: u8,
+    prefix_sel: u8,
+    year: u16,
+}
+
+fn strat_fatten() -> BoxedStrategy<FattenCase> {
+    (any::<u16>(), 0u8..16, any::<u8>(), 1972u16..=2030).prop_map(|(rule_sel, shape, prefix_sel, year)| FattenCase { rule_sel, shape, prefix_sel, year }).boxed()
+}
+
+fn test_fatten(c: &FattenCase, cx: &mut Cx) -> CaseResult {
+    use crate::refmodel::reftz;
+    let rules: Vec<&str> = zones::POSIX_STRINGS.iter().copied().filter(|s| s.contains(',')).collect();
+    let rule = rules[zones::pick(c.rule_sel, rules.len())];
+    let Some(p) = reftz::parse_posix(rule) else { return Ok(()) };
+    let Some(r) = &p.rule else { return Ok(()) };
+    if !p.is_tame(8 * 86400) {
+        return Ok(());
+    }
+    let prefix = ["A", "X", "Zq", "N"][(c.prefix_sel % 4) as usize];
+    let (std, dst) = (p.std.clone(), r.dst.clone());
+    // the last explicit transition: the rule's own switch to standard time in `year`
+    let y = c.year as i64;
+    let tr = p.year_transitions(y);
+    let t_std = tr.iter().find(|(_, i)| !i.dst).map(|(t, _)| *t).unwrap();
+    let t_dst = tr.iter().find(|(_, i)| i.dst).map(|(t, _)| *t).unwrap();
+    if !(0..i32::MAX as i64).contains(&t_std) || !(0..i32::MAX as i64).contains(&t_dst) {
+        return Ok(());
+    }
+    let mut types: Vec<(String, i32, bool)> = vec![("LMT".into(), std.off - 137, false)];
+    let mut trans: Vec<(i64, u8)> = vec![];
+    let mut t = t_std.min(t_dst) - 3 * 366 * 86400;
+    let mut older = |abbr: String, off: i32, isdst: bool, types: &mut Vec<(String, i32, bool)>, trans: &mut Vec<(i64, u8)>| {
+        types.push((abbr, off, isdst));
+        trans.push((t, (types.len() - 1) as u8));
+        t += 200 * 86400;
+    };
+    if c.shape & 1 != 0 {
+        older(format!("{prefix}{}", dst.abbr), dst.off, true, &mut types, &mut trans);
+    }
+    if c.shape & 2 != 0 {
+        older(format!("{prefix}{}", std.abbr), std.off, false, &mut types, &mut trans);
+    }
+    if c.shape & 4 != 0 {
+        older(dst.abbr.clone(), dst.off, false, &mut types, &mut trans);
+    }
+    if c.shape & 8 != 0 {
+        older(std.abbr.clone(), std.off, true, &mut types, &mut trans);
+    }
+    // finally the rule's own standard type as the last recorded transition (the DST type of the
+    // rule is *not* in the table unless an older look-alike put it there)
+    types.push((std.abbr.clone(), std.off, false));
+    trans.push((t_std, (types.len() - 1) as u8));
+    if trans.windows(2).any(|w| w[0].0 >= w[1].0) || types.iter().any(|(a, o, _)| a.len() > 12 || o.abs() > 93599) {
+        return Ok(());
+    }
+    let bytes = crate::tzfiles::build_tzif(&types, &trans, rule);
+    let Some(rz) = reftz::parse_tzif(&bytes) else { fail!("HARNESS-PANIC", "the reference reader rejects the generated file for {rule}") };
+    let tz = match TimeZone::tzif("Verif/Generated", &bytes) {
+        Ok(tz) => tz,
+        Err(e) => {
+            // a footer that is inconsistent with the last transition is legitimately refused
+            cx.class("fatten: generated file refused");
+            let _ = e;
+            return Ok(());
+        }
+    };
+    cx.nt();
+    cx.class("fatten: generated file accepted");
+    cx.class_if(c.shape & 3 != 0, "fatten: table has a longer designation ending in one of the rule's");
+    cx.class_if(c.shape & 12 != 0, "fatten: table has a look-alike type with the other DST flag");
+    // probes: every rule transition of the following 12 years (inside and beyond the fattened
+    // range when the year is late) +-1s, and the far future
+    let mut probes: Vec<i64> = vec![t_std, t_std + 1, t_std + 86400 * 30];
+    for yy in (y + 1)..=(y + 12).max(2040) {
+        if (yy - y) > 12 && yy < 2036 {
+            continue;
+        }
+        for (tt, _) in p.year_transitions(yy) {
+            probes.extend([tt - 1, tt, tt + 1, tt + 86400 * 20]);
+        }
+    }
+    for &s in &probes {
+        let Ok(ts) = Timestamp::from_second(s) else { continue };
+        let want = rz.lookup(s);
+        let got = tz.to_offset_info(ts);
+        ensure!(
+            got.offset().seconds() == want.off && (got.dst() == jiff::tz::Dst::Yes) == want.dst && got.abbreviation() == want.abbr,
+            "fattened-answer-differs-from-rule",
+            "rule {rule}, table types {types:?}: at {ts} jiff says ({}, {:?}, {:?}), the footer rule prescribes ({}, dst={}, {:?})",
+            got.offset(), got.dst(), got.abbreviation(), want.off, want.dst, want.abbr
+        );
+    }
+    // the transitions handed out after the last recorded one carry the rule's types too
+    let start = Timestamp::from_second(t_std).unwrap();
+    for trn in tz.following(start).take(8) {
+        let s = trn.timestamp().as_second();
+        let want = rz.lookup(s);
+        ensure!(trn.offset().seconds() == want.off && (trn.dst() == jiff::tz::Dst::Yes) == want.dst && trn.abbreviation() == want.abbr, "fattened-transition-differs-from-rule", "rule {rule}, table types {types:?}: following() yields ({}, {:?}, {:?}) at {}, the rule prescribes ({}, dst={}, {:?})", trn.offset(), trn.dst(), trn.abbreviation(), trn.timestamp(), want.off, want.dst, want.abbr);
+    }
+    Ok(())
+}
+
 pub fn property() -> Property {
     let _: Option<Arc<()>> = None;
     Property {
@@ -512,6 +624,7 @@ pub fn property() -> Property {
             Box::new(Sweep { name: "c18.slim_fat_static", run: run_slim_fat, replay: replay_slim_fat }),
             Box::new(Prop { name: "c18.names", quick: 120_000, thorough: 2_000_000, strategy: strat_case_variant, test: test_case_variant }),
             Box::new(Prop { name: "c18.posix_print", quick: 600_000, thorough: 6_000_000, strategy: strat_posix_print, test: test_posix_print }),
+            Box::new(Prop { name: "c18.fatten_generated", quick: 60_000, thorough: 2_000_000, strategy: strat_fatten, test: test_fatten }),
             Box::new(Sweep { name: "c18.cross_build", run: run_cross_build, replay: replay_cross }),
             Box::new(Sweep { name: "c18.cleanup", run: run_cleanup, replay: replay_cross }),
         ],
